@@ -242,19 +242,31 @@ def run(ctx):
             replay_server(ctx, h, [c], "replay", mode=rec.get("mode", "script"), drop_waits=rec.get("mode") == "pipe")
         elif rec.get("harness") == "TestVerifServerActions":
             replay_cases(ctx, h, "TestVerifServerActions", [rec["case"]], lambda c: c["exp"], "replay", kf=_kf_list)
+        elif rec.get("harness") == "TestVerifServerTCP":
+            c1, o1 = os.path.join(ctx.work, "case1-tcp.ndjson"), os.path.join(ctx.work, "out1-tcp.ndjson")
+            write_ndjson(c1, [rec["case"]])
+            ctx.run_harness(h, "TestVerifServerTCP", env={"VERIF_CASES": c1, "VERIF_OUT": o1}, timeout=300)
+            r1 = read_ndjson(o1)[0]
+            if r1["got"] not in rec["allowed"]:
+                ctx.violation("replay (tcp): spec allows %s, real server %s" % (json.dumps(rec["allowed"])[:500], json.dumps(r1["got"])),
+                              dict(rec, got=r1["got"], raw=r1))
+        elif rec.get("harness") == "TestVerifServerRandom":
+            r = rec["record"]
+            record_and_judge(ctx, h, "TestVerifServerRandom", [{"kind": r["kind"], "seed": r["seed"], "key": r.get("key", "")}],
+                             "Judge_Server", "Judge_Server.cfg", "replay", kf=_kf_judge, workers=1)
         else:
             raise Infra("cannot replay " + str(rec.get("harness")))
         return "model_checking"
 
     # ---- (1) exhaustive model checking of the connection state machine
-    mc = ctx.mc("MC_Server", ctx.pick("MC_Server_quick.cfg", "MC_Server_small.cfg"), timeout=2400, coverage=True, workers=W)
+    mc = ctx.mc("MC_Server", ctx.pick("MC_Server_quick.cfg", "MC_Server.cfg"), timeout=2400, coverage=True, workers=W)
     dead = [a for a, n in mc.action_cov.items() if n == 0]
     if dead:
         raise Infra("vacuous model: actions never taken: %s" % dead)
 
     # ---- (2) action lists: grammar round trip (MC) + export; POST parser vs --bind parsers vs the spec's parse;
     #          the same TLC run prints the small tables (listener start, action filter, long bodies, busy channel)
-    genv = {"GEN_SEED": ctx.seed % 1000, "GEN_NSAMPLE": ctx.pick(20, 60), "GEN_STRIDE": ctx.pick(12, 1)}
+    genv = {"GEN_SEED": ctx.seed % 1000, "GEN_NSAMPLE": ctx.pick(20, 120), "GEN_STRIDE": ctx.pick(12, 1)}
     gm = ctx.mc("Gen_Server", "Gen_ServerMisc.cfg", timeout=1200, workers=W, env=genv, label="gen-misc")
     lists = gm.json_items("LIST")
     big = gm.json_items("BIG")
@@ -288,7 +300,7 @@ def run(ctx):
     replay_tcp(ctx, h, cases, ctx.pick(400, 4000))
 
     # ---- (5) J: random byte streams and random action lists, judged by Judge_Server
-    nreq, nact = ctx.pick(4000, 60000), ctx.pick(2000, 30000)
+    nreq, nact = ctx.pick(4000, 120000), ctx.pick(2000, 40000)
     base = ctx.seed * 1000003
     inputs = [{"kind": "req", "seed": base + i, "key": "s3cR7k" if i % 3 else ""} for i in range(nreq)]
     inputs += [{"kind": "acts", "seed": base + i, "key": ""} for i in range(nact)]
